@@ -50,6 +50,11 @@ def chunks(tier):
             out.append({"kind": "pred", "n": n, "rooted": rooted, "tier": tier})
     for i in range(len(big_shapes())):
         out.append({"kind": "big", "index": i, "tier": tier})
+    for n in range(2, (4 if tier == "quick" else 5) + 1):
+        ns = len(U.shapes(n))
+        step = 6 if n <= 4 else 8
+        for lo in range(0, ns, step):
+            out.append({"kind": "reenc", "n": n, "lo": lo, "hi": min(ns, lo + step), "tier": tier})
     return out
 
 
@@ -327,11 +332,116 @@ def run_big(chunk, ctx):
     return agg
 
 
+# ---------------------------------------------------------------------------
+# re-encoding histories: [earlier use of the bipartition data; edit; encode] must give exactly what a
+# fresh encoding of the edited tree gives (stale/reused Bipartition objects, lazily created ones)
+
+PRE_OPS = ["none", "touch-edge-bipartitions", "mrca-first", "encode", "encode-mutable", "encode-mutable-twice"]
+EDITS = ["none", "toggle-rooting", "swap-two-leaf-taxa", "regraft-first-leaf", "reseed-at-last-internal"]
+FINALS = [(False, False), (True, False), (True, True)]   # (is_bipartitions_mutable, suppress_storage)
+
+
+def check_reencode(case, ctx):
+    from mc import bipcheck
+    shape = tup(case["shape"])
+    n = case["n"]
+    labels = labels_for(n)
+    ns, bit = build.make_namespace(labels, case["ns"])
+    sn = ref.mk(shape, lens=1, labels=labels)
+    tree = build.build_tree((case["rooted"], sn), ns)
+    pre, edit, (mut, nostore) = case["pre"], case["edit"], case["final"]
+    try:
+        if pre == "touch-edge-bipartitions":
+            for nd in tree.preorder_node_iter():
+                nd.edge.bipartition
+        elif pre == "mrca-first":
+            tree.mrca(taxon_labels=[l for l in labels[:2]])
+        elif pre == "encode":
+            tree.encode_bipartitions()
+        elif pre == "encode-mutable":
+            tree.encode_bipartitions(is_bipartitions_mutable=True)
+        elif pre == "encode-mutable-twice":
+            tree.encode_bipartitions(is_bipartitions_mutable=True)
+            tree.encode_bipartitions(is_bipartitions_mutable=True)
+        saved = tree.bipartition_encoding
+        saved_vals = None if saved is None else sorted((b._leafset_bitmask, b._split_bitmask) for b in saved)
+        saved_frozen = saved is not None and all(not b.is_mutable for b in saved)
+        leaves = [nd for nd in tree.leaf_node_iter()]
+        internal = [nd for nd in tree.preorder_node_iter() if nd._child_nodes and nd._parent_node is not None]
+        if edit == "toggle-rooting":
+            tree.is_rooted = not bool(tree.is_rooted)
+        elif edit == "swap-two-leaf-taxa" and len(leaves) >= 2:
+            leaves[0].taxon, leaves[-1].taxon = leaves[-1].taxon, leaves[0].taxon
+        elif edit == "regraft-first-leaf" and len(leaves) >= 3:
+            lf = leaves[0]
+            target = [nd for nd in tree.preorder_node_iter() if nd._child_nodes and nd is not lf._parent_node]
+            if target:
+                lf._parent_node.remove_child(lf)
+                target[-1].add_child(lf)
+        elif edit == "reseed-at-last-internal" and internal:
+            tree.reseed_at(internal[-1], update_bipartitions=False)
+        enc = tree.encode_bipartitions(is_bipartitions_mutable=mut, suppress_storage=nostore)
+    except Exception as e:
+        ctx.violation("reencode|exception|%s" % type(e).__name__, "history %s/%s/%s raised %r" % (pre, edit, (mut, nostore), e), case)
+        return
+    probs = ref.wellformed(tree)
+    if probs:
+        ctx.violation("reencode|malformed-tree", "; ".join(probs), case)
+        return
+    # every edge must carry exactly what a fresh encoding of the present structure gives
+    masks, total = bipcheck.expected_masks(tree, bit)
+    is_rooted = bool(tree._is_rooted)
+    stack = [tree._seed_node]
+    while stack:
+        nd = stack.pop()
+        stack.extend(nd._child_nodes)
+        bp = nd._edge._bipartition
+        want = masks[id(nd._edge)]
+        ws = want if is_rooted else normalise(want, total)
+        if bp is None or bp._leafset_bitmask != want or bp._split_bitmask != ws or bool(bp._is_rooted) != is_rooted \
+                or bp._tree_leafset_bitmask != total:
+            ctx.violation("reencode|stale-bipartition|after:%s" % pre,
+                          "after [%s; %s; encode(mutable=%s)] an edge carries leafset=%s split=%s rooted=%r, a fresh encoding gives leafset=%s split=%s rooted=%r" % (
+                              pre, edit, mut, None if bp is None else bin(bp._leafset_bitmask or 0),
+                              None if bp is None or bp._split_bitmask is None else bin(bp._split_bitmask), None if bp is None else bp._is_rooted,
+                              bin(want), bin(ws), is_rooted), case)
+            return
+    if not nostore:
+        ep = bipcheck.encoding_problems(tree, bit)
+        if ep:
+            ctx.violation("reencode|encoding-list|after:%s" % pre, "; ".join(ep[:2]), case)
+            return
+    # an encoding that was frozen (immutable) when it was saved must not be rewritten by later work
+    if saved_frozen and saved is not tree.bipartition_encoding:
+        now = sorted((b._leafset_bitmask, b._split_bitmask) for b in saved)
+        if now != saved_vals:
+            ctx.violation("reencode|saved-frozen-encoding-rewritten", "an immutable encoding saved before the edit changed its values", case)
+
+
+def run_reenc(chunk, ctx):
+    n = chunk["n"]
+    shapes = U.shapes(n)
+    for si in range(chunk["lo"], chunk["hi"]):
+        for rooted in (True, False):
+            for cfg in ("exact", "removed_low"):
+                for pre in PRE_OPS:
+                    for edit in EDITS:
+                        for final in FINALS:
+                            case = {"kind": "reenc", "n": n, "shape": shapes[si], "rooted": rooted, "ns": cfg, "pre": pre, "edit": edit,
+                                    "final": list(final)}
+                            ctx.case(("reenc", shapes[si], rooted, cfg, pre, edit, final), nontrivial=n >= 3)
+                            ctx.count("reencode_histories")
+                            check_reencode(case, ctx)
+    return None
+
+
 def run_chunk(chunk, ctx):
     if chunk["kind"] == "pred":
         return run_pred(chunk, ctx)
     if chunk["kind"] == "big":
         return run_big(chunk, ctx)
+    if chunk["kind"] == "reenc":
+        return run_reenc(chunk, ctx)
     n, rooted, tier = chunk["n"], chunk["rooted"], chunk["tier"]
     b = bounds(tier)
     shapes = U.shapes(n)
@@ -503,6 +613,8 @@ def replay(case, ctx):
         check_reconstruct(case, ctx)
     elif k == "predclass":
         check_predicates(case, ctx)
+    elif k == "reenc":
+        check_reencode(case, ctx)
     elif k == "pair":
         col = []
         check_encoding(case["a"], ctx, col)
